@@ -5,6 +5,9 @@ evaluator: the audit hook (effects), PEP 669 CALL/INSTRUCTION events restricted 
 objects the evaluator executes for the expression (callables, name reads, attribute ops), a
 probe value (dunder lookups from C code) and a recording stdout.  Plus value transparency of
 safe expressions against plain Python, and a few unmonitored child processes as ground truth.
+Shard mode `reach`: the live objects TatSu binds in the AST (AST/Node -> parseinfo -> cursor -> input ->
+configuration -> semantics ...) are walked along every attribute name the evaluator's checker lets through,
+and every reached object is read, called and iterated by an expression evaluated through a real parse.
 DESIGN.md section 3/C17.
 """
 from __future__ import annotations
@@ -38,6 +41,14 @@ RULE = ('cases = (expression text, extra AST bindings, route); routes: eval = ta
         'keys) re-spelled in NFKC-equivalent code points (fullwidth, mathematical, modifier/sub/superscript letters, roman '
         'numerals, ligatures, U+FF3F/FE33/FE4D.. low lines; all identifiers, one, all but one; never two adjacent ASCII '
         'underscores in a re-spelled name), value compared with the ASCII spelling. '
+        'reach = attribute-reachability sweep: for (input str | Buffer | TextLines) x (parseinfo off | on) x (plain AST | '
+        'asmodel with a typed rule) [+ the same grammar through tatsu.compile] the names bound when the constant is evaluated '
+        '(a rule result, a typed Node, a closure, a group, the value of an @: override, a constant) are taken from the '
+        "expression's own frame; breadth-first walk from every bound value along the attribute names not starting with '__' "
+        "and into items ([0], ['key']), de-duplicated on (type, attribute), to the depth where nothing new appears; every "
+        'reached object is read, every callable called with 11 argument lists around an existing scratch file and a missing '
+        'path (+ lists of its own arity), iterables are measured/sorted/iterated; each such expression arrives as INPUT text '
+        'of one model per configuration (const placement, every 8th also as alert) and is judged like any other case. '
         'non-trivial = the evaluator executed at least one code object for the expression under the monitors; distinct by '
         '(route, expression, bindings)')
 ASSUMPTIONS = [
@@ -50,10 +61,19 @@ ASSUMPTIONS = [
     'an effect is attributed to the expression iff a frame of a code object the evaluator executed for it (or of code nested in / '
     'exec-ed by it) is on the Python stack when the audit event fires; effects are blocked after being recorded',
     'generator/frame introspection attributes (gi_frame, f_globals...) are not dunder attributes: counted, not judged',
+    'the import of a submodule of the stdlib package encodings made by the interpreter\'s own codec lookup (str.encode(name), '
+    'bytes.decode(name)) is not an import performed by the expression: counted (expr_audit_unjudged:import:codec-lookup), not judged',
     'a non-ParseException exception escaping model.parse from a constant (TypeError from ast.literal_eval of `{[1]: 2}`) is '
     'counted, not judged; SystemExit/KeyboardInterrupt escaping is judged (exits the process)',
     'string results that constant() would evaluate again are compared only when plain Python says the re-evaluation is inert '
     '(not a literal, and either not an expression or one with an unbound name)',
+    'reach: a callable reached as an attribute of an AST value (method, static method, class kept in a field) is a method of '
+    'a value, not a name outside the set: calling it is counted, the audit effects it causes below the expression frame '
+    '(open, import, exec, compile, os.*, subprocess.*, socket.* ...) are judged; sys._getframe*/object.__getattr__/gc.* events '
+    'raised by library or package code below the frame are introspection by that code: counted (reach_unjudged:*), not '
+    'blocked, not judged; calls that move or rewrite parser state (cursor, input text, configuration, registries) are not '
+    'judged; quick tier: a mechanism (chain of type.attribute, action) reached in several configurations is evaluated in '
+    'one of them (chosen by hash), thorough: in all',
 ]
 EXHAUSTIVE = {
     'quick': f'every name in vars(builtins) ({len(X.BUILTIN_NAMES)}) x {len(X.CALL_ARGS)} argument lists and x '
@@ -69,15 +89,25 @@ FLOORS = {
               'transparency_compared': 4000, 'rejected_outcome_checked': 5000, 'child_runs': 10,
               'child_control_ok': 1, 'kind:attr': 1000, 'kind:compose': 2000, 'kind:strbuild': 800, 'kind:shadow': 600,
               'kind:fmt': 400, 'nfkc_variants': 1200, 'nfkc_builtins_swept': len(X.BUILTIN_NAMES),
-              'nfkc_dunder_without_ascii_pair': 200, 'nfkc_touching_evaluations': 900, 'nfkc_transparency_compared': 500},
+              'nfkc_dunder_without_ascii_pair': 200, 'nfkc_touching_evaluations': 900, 'nfkc_transparency_compared': 500,
+              # reach: what a tree that binds nothing but plain values would still give (the floors must not need the defect)
+              'reach_configurations': 14, 'reach_objects': 1400, 'reach_types': 110, 'reach_paths_generated': 12000,
+              'reach_mechanisms': 800, 'reach_evaluations': 800, 'reach_callables_called': 70, 'reach_calls': 800,
+              'reach_calls_executed': 400, 'route:reach-const': 900, 'route:reach-alert': 100, 'reach_control_ok': 14,
+              'reach_attribution_control_ok': 4},
     'thorough': {'evaluations': 330000, 'distinct_nontrivial': 110000, 'roots_executed': 600000, 'call_events': 150000,
                  'name_reads': 350000, 'builtins_swept': len(X.BUILTIN_NAMES),
                  'sweep_cases': len(X.BUILTIN_NAMES) * (len(X.CALL_ARGS) + len(X.PLACEMENTS)),
                  'route:const-text': 5000, 'transparency_compared': 80000, 'rejected_outcome_checked': 40000,
                  'child_runs': 10, 'child_control_ok': 1, 'nfkc_variants': 24000,
                  'nfkc_builtins_swept': len(X.BUILTIN_NAMES), 'nfkc_dunder_without_ascii_pair': 5000,
-                 'nfkc_touching_evaluations': 22000, 'nfkc_transparency_compared': 12000},
+                 'nfkc_touching_evaluations': 22000, 'nfkc_transparency_compared': 12000,
+                 'reach_configurations': 18, 'reach_objects': 1800, 'reach_types': 140, 'reach_paths_generated': 40000,
+                 'reach_mechanisms': 2500, 'reach_evaluations': 60000, 'reach_callables_called': 1000, 'reach_calls': 50000,
+                 'reach_calls_executed': 45000, 'route:reach-const': 30000, 'route:reach-alert': 30000,
+                 'reach_control_ok': 18, 'reach_attribution_control_ok': 16},
 }
+PEAK_COUNTERS = ('reach_depth_max',)
 SHARD_TIMEOUT = {'quick': 900, 'thorough': 5400}
 
 N_RANDOM = {'quick': 2400, 'thorough': 120000}
@@ -90,7 +120,7 @@ BASE_NAMES = ('a', 'n', 't', 'p')
 WATCHDOG_S = 2          # CPU seconds of this process (ITIMER_VIRTUAL); a normal evaluation takes ~5 ms
 WATCHDOG_REPEAT_S = 0.25
 INPUT_NAME = 'src_'
-N_REACH_SHARDS = {'quick': 6, 'thorough': 16}
+N_REACH_SHARDS = {'quick': 4, 'thorough': 16}
 
 
 def plan(tier, seed):
@@ -733,7 +763,8 @@ def reach_expressions(entries, tier):
                 args += [a for a in fitted if a not in args]
             out += [(e, f'{e["expr"]}({a})', e['chain'] + '()', 'call', (e['chain'], f'({a})')) for a in args]
         if e['iterable'] and e['depth'] <= REACH_ITER_DEPTH[tier]:
-            out += [(e, form.replace('§', e['expr']), e['chain'] + tag, 'iter', (e['chain'], tag)) for form, tag in REACH_FORMS]
+            out += [(e, form.replace('§', e['expr']), e['chain'] + tag, 'iter', (e['chain'], tag))
+                    for form, tag in REACH_FORMS]
     return out
 
 
@@ -800,8 +831,8 @@ class ReachAcc:
             return
         self.seen.add(rsig)
         also = [c for c in self.wit['reach']['reached_in'] if c != self.cfg]
-        self.acc.violation(rsig, f'[reach {self.cfg}] {what}' + (f' (the same chain is reached in {", ".join(also)})' if also else ''),
-                           self.wit)
+        more = f' (the same chain is reached in {", ".join(also)})' if also else ''
+        self.acc.violation(rsig, f'[reach {self.cfg}] {what}{more}', self.wit)
 
 
 class Reach:
@@ -911,7 +942,7 @@ class Reach:
     def control(self, cfg):
         """the state shared by the evaluations of this process still evaluates a safe expression to its value"""
         case = {'actual': REACH_CONTROL[0], 'cfg': cfg['id']}
-        for attempt in (0, 1):
+        for _attempt in (0, 1):
             _obs, out, _u, _x = self.run(case, 'const')
             if out[:2] == ('ok', REACH_CONTROL[1]):
                 self.acc.count('reach_control_ok')
@@ -1149,6 +1180,7 @@ def replay(w, acc):
                 cfg = R.cfgs.get(r['cfg']) or {c['id']: c for c in reach_configs('thorough')}[r['cfg']]
                 R.cfgs[cfg['id']] = cfg
                 if R.discover(cfg) is not None:
+                    R.chain_cfgs[r['chain'].split('|')[0].removesuffix('()')] = list(r.get('reached_in') or [cfg['id']])
                     reach_one(R, ReachAcc(acc), cfg, r['chain'], r['expr'], r.get('form', 'call'), r.get('place', 'const'))
             finally:
                 R.close()
@@ -1172,7 +1204,10 @@ MANIFEST = {
                   '`constant`, ^`alert`, input text re-evaluated by constant()); for each execution the monitors list the callables '
                   'called, the names read with the objects they resolved to, the attribute instructions executed and the audit '
                   'events caused, and the verdict is the statement read over that list; exploration is the right level because the '
-                  'quantifier ranges over all expression strings',
+                  'quantifier ranges over all expression strings; an attribute-reachability sweep walks the live objects the '
+                  'parser binds in the AST (parseinfo, cursor, input, configuration, semantics, typed nodes) for 14 '
+                  'configurations of input kind x parseinfo x result kind and reads/calls/iterates everything reached, '
+                  'signatures = effect + chain of type.attribute names',
     'level_note': 'trusted: CPython audit events and sys.monitoring, the classification of builtins in vt/monitors/sandbox.py; '
                   'effects are blocked after being recorded, so values of violating expressions are not meaningful; a few '
                   'unmonitored child processes confirm the effects end to end; held = no forbidden callable/name/attribute/effect in '
